@@ -2175,6 +2175,7 @@ def remove_dead_ifs(source: str) -> str:
 
             yield core.Range(node_start - start_offset, node_end), "\n\n" + modified_body + "\n\n"
 
+    safe_callables = parsing.safe_callable_names(root)
     for node in core.walk(root, (ast.ListComp, ast.SetComp, ast.GeneratorExp, ast.DictComp)):
         generators = []
         any_comprehension_modified = False
@@ -2214,6 +2215,18 @@ def remove_dead_ifs(source: str) -> str:
 
         if not any_comprehension_modified:
             continue
+
+        if len(generators) < len(node.generators):
+            # A condition that is always False makes the whole comprehension empty, whichever
+            # of the generators it belongs to. What the comprehension iterates over is still
+            # evaluated though, so it is only replaced if that has no effect.
+            if any(
+                core.has_side_effect(child, safe_callables)
+                for comprehension in node.generators
+                for child in (comprehension.iter, *comprehension.ifs)
+            ):
+                continue
+            generators = []
 
         if generators:
             yield (node, type(node)(**{**node.__dict__, "generators": generators}))
